@@ -372,6 +372,11 @@ fn chunks_cases<W: WX>(ctx: &mut Ctx, widths: &[usize]) {
                             let mut base = 0;
                             for mut c in chunks {
                                 let l = c.len();
+                                // every view holds min(chunk size, remaining) elements: in particular no empty views
+                                if l != cs.min(n - base.min(n)) || l == 0 {
+                                    reads.push(W::MAX);
+                                    reads.push(W::MAX);
+                                }
                                 for i in 0..l {
                                     reads.push(c.get(i));
                                     // write the complement, then restore half of them
@@ -393,7 +398,7 @@ fn chunks_cases<W: WX>(ctx: &mut Ctx, widths: &[usize]) {
                             let got: Vec<W> = (0..n).map(|i| b.get(i)).collect();
                             let exp: Vec<W> = vals.iter().map(|&x| !x & mask::<W>(w)).collect();
                             if reads != vals || got != exp {
-                                ctx.violation("C10|BitFieldVec::try_chunks_mut|wrong-elements", format!("W={} width={w} len={n} chunk_size={cs}: chunk views do not address the corresponding elements (read {} values)", W::NAME, reads.len()));
+                                ctx.violation("C10|BitFieldVec::try_chunks_mut|wrong-elements", format!("W={} width={w} len={n} chunk_size={cs} (spare dirty word: {dirty}): chunk views do not address the corresponding elements, or their number / lengths are not ceil(len / chunk_size) views of min(chunk_size, remaining) elements (read {} values)", W::NAME, reads.len()));
                             } else if let Some(e) = outside_unchanged(&before, b.as_slice(), w, 0, n) {
                                 ctx.violation("C10|BitFieldVec::try_chunks_mut|writes-outside-range", format!("W={} width={w} len={n} chunk_size={cs}: {e}", W::NAME));
                             }
